@@ -353,8 +353,11 @@ def r10d(ctx):
     sites = [c for c in walk_no_nested(e.node) if isinstance(c, ast.Call) and call_name(c) == "KeyValuePairEdit"]
     ctx.floor("R10d", len(sites), 1, "KeyValuePairEdit constructions in KeyValuePairNode.edits")
     for c in sites:
-        facts = [ast.unparse(t).replace(" ", "") for t, pol, _ in dominating_conditions(c) if pol]
-        ok = any(x in (f"self.allow_key_editsorself.key=={o}.key", f"self.key=={o}.keyorself.allow_key_edits") for x in facts)
+        signed = [(t, pol) for t, pol, _ in dominating_conditions(c)]
+        facts = [("" if pol else "not ") + ast.unparse(t).replace(" ", "") for t, pol in signed]
+        # decided truth-functionally: the construction must be unreachable when key edits are off AND the keys differ
+        from ..astx import facts_refute
+        ok = facts_refute(signed, {"self.allow_key_edits": False, "==".join(sorted(("self.key", f"{o}.key"))): False})
         if ok:
             ctx.proved("R10d", e.file, "KeyValuePairNode.edits", c, "pair guard", "KeyValuePairEdit only under allow_key_edits or equal keys")
         else:
